@@ -249,6 +249,58 @@ def check_case(ctx, case, record=True):
         shutil.rmtree(directory, ignore_errors=True)
 
 
+TZ_TRANSITIONS = [("America/New_York", 1636264800), ("Europe/London", 1635642000),
+                  ("Australia/Lord_Howe", 1617462000), ("America/St_Johns", 1636259400),
+                  ("America/New_York", 1615705200), ("UTC", 1636264800), ("Asia/Kolkata", 1636264800)]
+
+
+@st.composite
+def tz_cases(draw):
+    zone, base = draw(st.sampled_from(TZ_TRANSITIONS))
+    near = st.one_of(st.integers(-3700, 3700), st.sampled_from([-3600, -1800, -1, 0, 1, 1800, 3599, 3600]))
+    instants = sorted({base + draw(near) for _ in range(draw(st.integers(2, 4)))})
+    return {"fam": "tz", "zone": zone, "kind": draw(st.sampled_from(["json", "pickle", "text", "binary", "touch"])),
+            "mounted": False, "pathlib": draw(st.booleans()), "encoding": None, "instants": instants}
+
+
+def check_tz_case(ctx, case, record=True):
+    """Successive writes at known instants (file mtime stamped with os.utime) under a process time zone with
+    daylight saving: the reported modified times, read as the instants they denote (naive = local time, with
+    its fold), never decrease.  Under naive comparison the *unchanged* stores 'decrease' across a fall-back,
+    so instants are the only reading under which the statement can hold."""
+    import time as _time
+
+    if record:
+        ctx.case(case, case["zone"] != "UTC", [f"tz:{case['zone']}", "fam:tz", f"kind:{case['kind']}"])
+    directory = tempfile.mkdtemp(prefix="c12-")
+    old = os.environ.get("TZ")
+    os.environ["TZ"] = case["zone"]
+    _time.tzset()
+    try:
+        store = make_store(case, directory)
+        value = {"json": [1], "pickle": (1,), "text": "x", "binary": b"x", "touch": None}[case["kind"]]
+        last = None
+        for t in case["instants"]:
+            store.write(value)
+            os.utime(os.fspath(store.path), (t, t))
+            m = store.get_modified_time()
+            if m is None:
+                ctx.violation(case, "get_modified_time is None after a successful write")
+            inst = m.timestamp()
+            if last is not None and inst < last[0]:
+                ctx.violation(case, f"[TZ={case['zone']}] modified time decreased across writes: file written at instant "
+                                    f"{last[2]} reported {last[1]!r} (fold={last[1].fold}), then written at {t} reported "
+                                    f"{m!r} (fold={m.fold}), which denotes an earlier instant")
+            last = (inst, m, t)
+    finally:
+        if old is None:
+            os.environ.pop("TZ", None)
+        else:
+            os.environ["TZ"] = old
+        _time.tzset()
+        shutil.rmtree(directory, ignore_errors=True)
+
+
 def _key(case, value, got):
     if case["kind"] == "text" and isinstance(value, str) and isinstance(got, str):
         if value.replace("\r\n", "\n").replace("\r", "\n") == got:
@@ -263,8 +315,20 @@ def run_shard(ctx):
 
     runner.drive(ctx, test, ctx.n(2400, 60000))
 
+    @given(tz_cases())
+    def test_tz(case):
+        check_tz_case(ctx, case)
+
+    runner.drive(ctx, test_tz, ctx.n(600, 8000))
+
 
 def replay(ctx, case):
+    if case.get("fam") == "tz":
+        try:
+            check_tz_case(ctx, case, record=False)
+        except runner.Violation as v:
+            return v.msg
+        return None
     case = decode_case(case)
     try:
         check_case(ctx, case)
